@@ -20,7 +20,9 @@ Commands
   `unit=<1|0>` (output unit has the physical value of one target unit)
 * `c15.map <n:v | q:a@E> <tol> | <units> | <impl value or ERR>` → `model=<rat or ERR> corr=<ok|diff> exact=<1|0>`
 * `c15.setunits <arg> <arg> … | <impl units or ERR>` (`arg`: `N`, `n:v`, `p:m@E`) → `model=… corr=…`
-* `c15.meta <copy|oncopy|construct|pickle|rewrap|reinitcut|reinitkeep> | <in>` → `units;name;id` or `ERR`
+* `c15.meta <copy|oncopy|construct|pickle|rewrap|reinitcut> | <in>` → `units;name;id` or `ERR`
+* `c15.reinit <D | arg arg …> | <in>` → `units;name;id` or `ERR`: `cls(x, units=…)` (`D` = the default `None`)
+* `c15.fromtable <D | arg arg …>` → units or `ERR`: construction from a bare table
 * `c15.same <tolData> <radii01> | <A> | <B>` → `1|0` (`samePhysB`)
 * `c15.cmp <tolData> <tolUnits> | <A> | <B>` → `ok | diff:fields`
 -/
@@ -260,7 +262,6 @@ def parseOp (s : String) : Option Op :=
   | "pickle" => some .pickle
   | "rewrap" => some .rewrap
   | "reinitcut" => some (.reinitAfterCut dropLast)
-  | "reinitkeep" => some (.reinitKeepUnits dropLast)
   | _ => none
 
 def sections (s : String) : List String := (s.splitOn "|").map trim
@@ -297,6 +298,17 @@ def run (cmd rest : String) : Option String :=
     let op ← parseOp op; let x ← parseNeuron x
     match applyOp x (1001, 1002, 1003) op with
     | some m => pure s!"{showUnits m.units};{m.name};{m.id}"
+    | none => pure "ERR"
+  | "reinit", [hd, x] => do
+    let x ← parseNeuron x
+    let arg ← if trim hd == "D" then some none else ((words hd).mapM parseUnitArg).map some
+    match reinit x arg 1001 1002 with
+    | some m => pure s!"{showUnits m.units};{m.name};{m.id}"
+    | none => pure "ERR"
+  | "fromtable", [hd] => do
+    let arg ← if trim hd == "D" then some none else ((words hd).mapM parseUnitArg).map some
+    match fromTable .tree [] [] [] arg "t" 1 with
+    | some m => pure (showUnits m.units)
     | none => pure "ERR"
   | "same", [hd, a, b] =>
     match words hd with
